@@ -153,8 +153,81 @@ fn large_outputs(ctx: &mut Ctx) {
     }
 }
 
+/// print, mutate something below the printed value, print again: the text always shows the heap as it
+/// is now. Three levels of containers (object or array each), five mutation routes, three first prints.
+fn print_after_mutation(ctx: &mut Ctx) {
+    ctx.stage("print - mutate - print again");
+    // level kinds: true = object (field), false = array (index 1)
+    let wrap = |obj: bool, inner: E, extra: E| if obj { object(None, vec![field("in", inner), field("tag", extra)]) } else { block(vec![let_("t", array(int(2), extra)), idxset(var("t"), int(1), inner), var("t")]) };
+    let step = |obj: bool, from: E| if obj { fget(from, "in") } else { idx(from, int(1)) };
+    for shape in 0..8usize {
+        let kinds = [shape & 1 != 0, shape & 2 != 0, shape & 4 != 0];
+        for route in 0..5usize {
+            for first in 0..3usize {
+                if ctx.take().is_none() { continue }
+                // leaf container `hi` holds the mutated slot
+                let hi = if kinds[2] { object(None, vec![field("x", int(4)), field("y", int(3))]) } else { array(int(2), int(4)) };
+                let mid = wrap(kinds[1], var("hi"), E::Bool(false));
+                let root = wrap(kinds[0], var("mid"), E::Null);
+                let path_mid = step(kinds[0], var("root"));
+                let path_hi = step(kinds[1], path_mid.clone());
+                let write = |target: E| if kinds[2] { fset(target, "x", int(14)) } else { idxset(target, int(0), int(14)) };
+                let mut prog = vec![let_("hi", hi), let_("mid", mid), let_("root", root),
+                    let_("host", object(Some(var("root")), vec![field("r", var("root")), method("grow", &[], write(step(kinds[1], step(kinds[0], fget(var("this"), "r")))))]))];
+                prog.push(match first { 0 => print("1: ~\\n", vec![var("root")]), 1 => print("1: ~ ~\\n", vec![path_mid.clone(), var("root")]), _ => print("1: ~ ~ ~\\n", vec![var("host"), var("root"), path_hi.clone()]) });
+                prog.push(match route {
+                    0 => write(path_hi.clone()),
+                    1 => write(var("hi")),
+                    2 => block(vec![let_("alias", path_mid.clone()), write(step(kinds[1], var("alias")))]),
+                    3 => mcall(var("host"), "grow", vec![]),
+                    _ => fun("poke", &["p"], write(step(kinds[1], step(kinds[0], var("p"))))),
+                });
+                if route == 4 { prog.push(call("poke", vec![var("root")])) }
+                prog.push(print("2: ~ | ~ | ~ | ~\\n", vec![var("root"), path_mid.clone(), path_hi.clone(), var("host")]));
+                // a second round: mutate again, print again
+                prog.push(if kinds[2] { fset(var("hi"), "y", var("mid")) } else { idxset(var("hi"), int(1), E::Null) });
+                if !kinds[2] { prog.push(print("3: ~ | ~\\n", vec![var("root"), var("host")])) }
+                semantic_case(ctx, "print-after-mutation", &prog);
+                ctx.count("programs", 1);
+            }
+        }
+    }
+}
+
+/// sources larger than the CLI's 8 KiB read buffer whose format strings consist almost entirely of
+/// 2-, 3- and 4-byte characters, at four byte alignments, as file and on stdin
+fn large_sources(ctx: &mut Ctx) {
+    ctx.stage("large non-ASCII sources through the real command line (processes)");
+    let exe = ctx.exe.clone();
+    for (ci, ch) in ["é", "€", "𝒳", "aé€𝒳"].iter().enumerate() {
+        for pad in 0..4usize {
+            if ctx.take().is_none() { continue }
+            let mut prog: Vec<E> = vec![print(&"p".repeat(pad), vec![])];
+            for i in 0..420 { prog.push(print(&format!("{}{}\\n", ch.repeat(12 + (i % 5)), i), vec![])) }
+            let mut fuel = super::super::refsem::Fuel::default();
+            fuel.output = 1_000_000; fuel.steps = 200_000;
+            let r = super::super::refsem::run_with(&prog, fuel, &[]);
+            if r.status != super::super::refsem::Status::Ok { ctx.count("unspecified", 1); continue }
+            let text = show(&prog);
+            let f = super::super::cli::write_file(&ctx.scratch, "src.fml", text.as_bytes());
+            let a = super::super::cli::simple(&exe, &["run", f.to_str().unwrap()]);
+            let b = super::super::cli::run(&exe, &["run"], Some(text.as_bytes()), None, &[], std::time::Duration::from_secs(30));
+            ctx.count("programs", 1); ctx.count("cli_runs", 2);
+            ctx.nontrivial(format!("{}:{}", ci, pad).as_bytes());
+            for (how, res) in [("file", &a), ("stdin", &b)] {
+                if !res.ok() || res.stdout != r.out.as_bytes() {
+                    ctx.violation("print/non-ascii-source-corrupted", "`fml run` prints different text than the source's format strings contain (every character must reach the output unchanged)",
+                        serde_json::json!({"text": format!("{}... ({} bytes, rows of `{}`)", &text[..text.char_indices().nth(60).map_or(text.len(), |x| x.0)], text.len(), ch), "input": how, "expected_bytes": r.out.len(), "received_bytes": res.stdout.len(), "exit": res.code, "cli": "fml run <file>"}));
+                }
+            }
+        }
+    }
+}
+
 pub fn run(ctx: &mut Ctx) {
     large_outputs(ctx);
+    large_sources(ctx);
+    print_after_mutation(ctx);
     formats(ctx, if ctx.quick() { 6 } else { 7 });
     values(ctx, if ctx.quick() { 4 } else { 5 });
 }
